@@ -181,6 +181,9 @@ def run(case: dict, ctx) -> dict:
             res["viol"].append({"what": f"a document without DOCTYPE was refused: {o.brief()}", "mech": MECH, "detail": {"entry_point": ep, "tb": o.tb}})
         elif want is not None and o.value != want:
             res["viol"].append({"what": "benign document: disk list differs from the model", "mech": MECH, "detail": {"got": o.value, "exp": want}})
+        elif ep == "vbox" and not (set(must) <= set(o.value) <= set(must) | set(maybe)):
+            res["viol"].append({"what": "benign document: disk list differs from the model", "mech": MECH,
+                                "detail": {"got": o.value, "must": sorted(must)[:6], "may": sorted(maybe)[:6]}})
     elif harmless_dtd and case["enc"] == "utf-8":
         cnt["harmless_doctype_documents"] = 1
         if not o.ok:
